@@ -83,6 +83,8 @@ IDX_ASSUME = [
     'R4 for-loop desugaring, R5 tracing!/format! removal, R11 binder renaming in the verified text',
 ]
 prop('C05', units=['idx'], level='proof', relevant=r'^unit::index::',
+     bounded=[dict(test='c05_uses', covers='the parts of C05 outside the contracts: class references through the global tables, field suffixes and inherited fields (Type::find_field), dag and list elements, def-name pastes, and that find-references returns exactly the uses (symbol_map.rs and rowan code)',
+                   bound='a fixed corpus written from the property statement: 4 programs in which every used name is in scope (classes with template arguments, fields and heirs, let overrides, field access; defvar / foreach / !foreach / !foldl variables, a foreach variable pasted onto a def name; dag operators and arguments after a bare $name, dags inside a list; multiclass / defm / defset / let, a defset used as a value); no diagnostic, go-to-definition on each of 45 uses compared with the declaring identifier, find-references on each of 29 declarations compared with the exact set of uses')],
      explanation=('PARTIAL. Verus proves on the real indexer text: (a) scope discipline - for every Indexable::index impl within reach and the helpers they call, over every exit including `?`, '
                   'the scope stack (as a sequence of frame kinds) and the file stack are exactly restored (class, def, defm, defset, foreach, multiclass and the three bang-operator scopes pop what '
                   'they pushed; an included file is popped again): the mechanism behind "a name used after the construct that declared it has ended does not resolve to it" and "in the right file"; '
@@ -93,6 +95,8 @@ prop('C05', units=['idx'], level='proof', relevant=r'^unit::index::',
                   'entered into the scope they belong to (Scopes::add_variable), the position index behind go-to-definition / find-references (symbol-map internals).'),
      assumptions=IDX_ASSUME)
 prop('C03', units=['idx'], level='proof', relevant=r'^unit::index::',
+     bounded=[dict(test='c03_search', covers='the request handlers (diagnostics, document symbols, folding ranges, links, inlay hints, definition, references, hover, completion: rowan navigation and symbol-map iterators outside the contracts) and the symbol-map functions the indexer calls',
+                   bound='6 valid programs of the supported core: every prefix (about 1 300 texts) and every single-token edit - deletion, duplication, replacement by one of 6 tokens - (about 3 000 texts), plus 5 nonsensical programs (surplus / unresolved / repeated template arguments, inheritance cycles, undefined classes, wrong operator arities, empty constructs); every request, position requests at every char offset; a panic or no answer within 20 s fails')],
      explanation=('PARTIAL (three mechanisms of the indexer). Verus proves on the real indexer text that the precondition of every panic site holds on every path: '
                   'Scopes::pop / last (expect "scope is empty"), IndexCtx::current_file_id / pop_file / error (expect "file_trace is empty"), the panic! of '
                   'TemplateArgDecl::index and ParentClassList::index (a Record/Multiclass/Defm frame is open), the expect of FieldDef/FieldLet (a Record frame is open); '
@@ -179,7 +183,7 @@ prop('C12', units=['ls'], level='proof', relevant=r'^unit::vfs::',
 
 prop('C13', units=['dg'], level='proof',
      bounded=[dict(test='c13_faults', covers='the semantic half of C13 (type checker spread over check_template_args, FieldDef/FieldLet, can_be_casted_to, bang_operator.rs): a whole-program judgement outside function contracts',
-                   bound='a fixed corpus written from the property statement: 2 well-formed programs (one with an include) must be diagnostic-free; 12 single-fault programs (undefined class / multiclass / identifier / include, missing and surplus template argument, type-incompatible argument / initialiser / override, wrong operator arity, syntax error) and 1 fault in an included file must be diagnosed at the seeded site, in the seeded file only')],
+                   bound='a fixed corpus written from the property statement: 2 well-formed programs (one with an include) must be diagnostic-free; 15 single-fault programs (undefined class / multiclass / identifier - also as a later list element, after a bare $name in a dag, pasted onto a def name - / include, missing and surplus template argument, type-incompatible argument / initialiser / override, wrong operator arity, syntax error) and 1 fault in an included file must be diagnosed at the seeded site, in the seeded file only')],
      explanation=('Unit DG (the merge step only): Verus proves on the real text of ide::handlers::diagnostics::exec that the per-file map of diagnostics contains, for EVERY file of the workspace '
                   '(root or included), every syntax error of that file\'s parse, filed under that file with the error\'s range; every diagnostic of the indexer, filed under the file it lies in; '
                   'an entry (possibly empty) for every workspace file; and that every stored diagnostic sits under its own file (the grouping unit LS assumes when it converts them). The closure '
